@@ -53,9 +53,38 @@ def case(draw):
         ballots.append({"r": draw(S.untied_ranking(cands)), "w": draw(S.weight(wk))})
     ballots = list(draw(st.permutations(ballots)))[:9]
     rule = draw(st.sampled_from(["STV", "STV", "STV", "IRV"]))
+    if n >= 4 and draw(st.integers(0, 3)) == 0:
+        # planted: a coalition of k members owed k quotas, several of them reaching the quota in the
+        # same round with ballots that pass from one co-winner to the next (chained surpluses)
+        k = draw(st.integers(2, n - 1))
+        q = draw(st.integers(2, 6))
+        coal = list(draw(st.permutations(cands)))[:k]
+        rest = [c for c in cands if c not in coal]
+        mult = draw(st.lists(st.integers(0, 3), min_size=k, max_size=k))
+        if sum(mult) != k:
+            mult = [k] + [0] * (k - 1) if draw(st.booleans()) else [1] * k
+            if draw(st.booleans()) and k >= 2:
+                mult = [k - 1, 1] + [0] * (k - 2)
+        ballots = []
+        for i, mu in enumerate(mult):
+            if mu:
+                rot = coal[i:] + coal[:i]
+                tail = list(draw(st.permutations(rest)))[: draw(st.integers(0, len(rest)))]
+                ballots.append({"r": [[c] for c in rot + tail], "w": mu * q})
+        others = q - 1
+        for c in rest:
+            if others <= 0:
+                break
+            w = draw(st.integers(1, others))
+            ballots.append({"r": [[c]] + [[x] for x in list(draw(st.permutations(coal)))[: draw(st.integers(0, k))]], "w": w})
+            others -= w
+        rule = "STV"
+        m_planted = k
+    else:
+        m_planted = None
     return {
         "rule": rule, "cands": list(draw(st.permutations(cands))), "ballots": ballots,
-        "m": 1 if rule == "IRV" else draw(st.integers(1, n)),
+        "m": 1 if rule == "IRV" else (m_planted or draw(st.integers(1, n))),
         "simultaneous": draw(st.booleans()), "transfer": "fractional" if rule == "IRV" else transfer,
         "tiebreak": draw(st.sampled_from(["random", "random", "borda", "first_place"])),
         "rng": draw(S.rng_spec()),
